@@ -167,7 +167,7 @@ def replay_overtaken(repo, seed):
         seq = [c for c, _ in lcl.common_sequence(cl)]
         me = NAMES.index(F) + 1
         acq = ("acq", 1, me, obs["attempt_at"])
-        obs["release_before_acquire"] = acq in seq and ("rel", 1, me) in seq[:seq.index(acq)]
+        obs["release_before_acquire"] = lc.release_overtaken(cl.sub_seq[F], seq, 1, me, obs["attempt_at"])
         kept = _aftermath(cl, F, L2, obs)
         return (kept and obs["told"][:1] == [(None, 5)]), obs
     finally:
@@ -204,7 +204,7 @@ def run(ctx):
                 cov["acquire_committed_after_its_compensating_release"] = cov.get("acquire_committed_after_its_compensating_release", 0) + 1
             if v:
                 samples.append(obs)
-                viols.append({"signature": SIG + ":compensating-release-overtaken",
+                viols.append({"signature": SIG + (":compensating-release-overtaken" if obs.get("release_before_acquire") else ""),
                               "what": "%s: tryAcquire(L1) at %s was told %s; its compensating release was committed before the acquire itself "
                                       "(common applied sequence %s); the client's isAcquired is True at %s, the lock table is %s, a competitor "
                                       "was answered %s" % (obs["level"], obs["attempt_at"], obs["told"], obs["applied"], obs["now"],
